@@ -38,45 +38,64 @@ class C20(Check):
                          "limit_before_payload", "allocation_bounded", "frames_split_regardless_of_chunking",
                          "netstring_prefix_parse", "buffered_reader_total", "buffered_reader_lenient", "tls_model_meets_spec", "framed_model_meets_spec",
                          "hostile_buffered_meets_spec", "hostile_model_meets_spec",
+                         "unauth_limit_selected", "conn_delivers_only_within_limit", "unauth_peer_never_over_1MiB", "conn_model_meets_spec",
+                         "send_recv", "tls_violation_rejected", "restore_record_safe",
                          ] + JSON_THEOREMS
-    technique = ("Lean 4 proof (round-trip laws, 'accepted implies canonical', invariant over the chunked read loop) about hand-written "
-                 "executable models of the netstring readers/writer and of the JSON codec; correspondence by differential execution of the real "
+    technique = ("Lean 4 proof (round-trip laws, 'accepted implies canonical', 'visible violation implies error', invariant over the chunked read loop, "
+                 "induction over the receive loop of a connection) about hand-written executable models of the netstring readers/writer, the JSON codec, "
+                 "JsonRpcConnection's limit selection + receive loop and ConfigObject::RestoreObject; correspondence by differential execution of the real "
                  "JsonEncode/JsonDecode, NetString::WriteStringToStream, the buffered NetString::ReadStringFromStream + StreamReadContext "
-                 "(all chunkings of short streams, random chunkings of long ones) and both TLS readers over a real TLS connection")
+                 "(all chunkings of short streams, random chunkings of long ones), both TLS readers over a real TLS connection, a real started JsonRpcConnection "
+                 "(authenticated or not, identity with or without Endpoint object) and ConfigObject::RestoreObjects on hostile state files")
     level_text = ("Machine-checked theorems (Lean 4 kernel): for every payload and limit the TLS reader model returns exactly the payload of a canonical "
-                  "frame and whatever it accepts is canonical (any other length field, separator or terminator is an error or EOF, never a payload); an "
+                  "frame and whatever it accepts is canonical; on every stream that VISIBLY violates the format (bad length field, wrong separator, over-limit "
+                  "header, wrong terminator) it answers with an error — never a payload, never running on to the end of the stream (tls_violation_rejected); an "
                   "over-limit header is rejected with every byte after ':' unread and nothing allocated, and the allocation never exceeds the limit on any input; "
                   "for every payload list and EVERY chunking (also of every prefix of the stream) the buffered read loop yields exactly the complete frames and "
                   "then EOF; on every byte stream the loop ends within a stated number of calls and items lie inside the buffer; JSON: decode(encode v) = v for "
                   "every tree (all of Unicode, escapes, surrogate pairs, any nesting) over an abstract lawful number codec, instance integers proved; "
-                  "JsonRpc::DecodeMessage hands the caller a dictionary exactly for JSON objects and rejects everything else with an error. The models "
-                  "are tied to the code by running the real functions on the same inputs and diffing every observation; the specification predicates are "
-                  "evaluated on the implementation's own observations")
+                  "JsonRpc::DecodeMessage hands the caller a dictionary exactly for JSON objects and rejects everything else with an error; sender and receiver "
+                  "composed (send_recv); a connection selects the 1 MiB limit for every peer that is not authenticated whatever identity it claims, on ANY byte "
+                  "stream delivers only messages from canonical frames within that limit (unauth_peer_never_over_1MiB), and for every frame sequence + arbitrary "
+                  "tail meets the executable connection specification (conn_model_meets_spec); every state-file record is handled or refused with an error, "
+                  "never a crash (restore_record_safe, full statement since the repair of F-C20b). The models are tied to the code by running the real "
+                  "functions on the same inputs and diffing every observation; the specification predicates are evaluated on the implementation's own observations")
     level_note = ("Trusted: Lean kernel (+ propext, Classical.choice, Quot.sound), sampled correspondence (exhaustive chunkings of short streams, random otherwise), "
-                  "harness/driver. Assumed and fuzzed bit-exactly, not proved: nlohmann's float printer + strtod round trip (number codec law). Modelled and proved as well: "
-                  "the UTF-8 layer (utf8cpp validate_next/replace_invalid as Utility::ValidateUTF8 uses them; round trip composed down to bytes) and Dictionary's "
-                  "sorted-map semantics (encode order, duplicate keys: last wins). Not modelled: JSON whitespace and raw non-ASCII inside JSON text (compared where the "
-                  "model accepts), Boost.Asio/OpenSSL, memory safety of the C++ (exercised: every operation in a forked child, thorough tier additionally under "
-                  "ASan+UBSan builds of the codec sources). F-C20a (unbounded nesting overflowed the coroutine stack) is fixed by 24727c0: the decoder model carries the limit of 1000, "
-                  "the constant is re-read from the source on every run, the boundary 999/1000/1001 and 12000/100000 levels are regression cases.")
+                  "harness/driver. Assumed, not proved: nlohmann's float printer + strtod round trip (number codec law) — now CHECKED BIT-EXACTLY on the implementation: "
+                  "clause jsonRoundtrip compares the binary64 bit pattern that went in with the one that came out (both zeros are the integer 0: JsonEncode prints -0.0 "
+                  "as 0 by design), so a printer that loses digits or an integer fast path applied to a non-integral value is a spec failure with the number as replay. "
+                  "Modelled and proved as well: the UTF-8 layer (utf8cpp validate_next/replace_invalid as Utility::ValidateUTF8 uses them; round trip composed down to bytes), "
+                  "Dictionary's sorted-map semantics (encode order, duplicate keys: last wins), the limit selection `m_Endpoint ? -1 : 1 MiB` with the constructor's "
+                  "`if (authenticated)` guard, the receive loop up to MessageHandler. Not modelled: JSON whitespace and raw non-ASCII inside JSON text (compared where the "
+                  "model accepts), NumberFloat's integer fast path for |x| >= 2^53 (oracle text, but bit-exact round trip), what MessageHandler does with a dictionary that "
+                  "is not the probe message, type/name lookup and Deserialize inside RestoreObject, Boost.Asio/OpenSSL, memory safety of the C++ (exercised: every operation "
+                  "in a forked child, thorough tier additionally under ASan+UBSan builds of the codec sources). F-C20a (unbounded nesting overflowed the coroutine stack) is fixed "
+                  "by 24727c0, F-C20b (state-file record `null` dereferenced a null pointer in RestoreObject) by 7e39c42: both are regression cases in corpus/C20.")
     trusted_base = [
         "modelled, not verified: NetString::WriteStringToStream, both TLS ReadStringFromStream variants (one model: the statements are identical), the buffered "
-        "ReadStringFromStream with StreamReadContext::FillFromStream/DropData (a fill = one chunk appended or EOF), JsonRpc::DecodeMessage and one iteration of "
-        "JsonRpcConnection::HandleIncomingMessages (ReadMessage, DecodeMessage, message->Get), JsonEncode (compact) with nlohmann dump_escaped "
-        "(ensure_ascii), JsonDecode restricted to whitespace-free text",
+        "ReadStringFromStream with StreamReadContext::FillFromStream/DropData (a fill = one chunk appended or EOF), JsonRpc::DecodeMessage, JsonRpcConnection's constructor "
+        "guard + limit selection + HandleIncomingMessages loop (ReadMessage, DecodeMessage, hand-over to MessageHandler; exceptions end the loop), the first statement of "
+        "ConfigObject::RestoreObject (decode, insist on a dictionary), JsonEncode (compact) with nlohmann dump_escaped (ensure_ascii), JsonDecode restricted to whitespace-free text",
         "number formatting/lexing (nlohmann dump of integers/doubles, strtod) is a codec parameter with the law parse(fmt x) = x: proved for the integer instance, "
-        "assumed for binary64 and checked bit-exactly on every generated number (the sign of zero is not part of the value: -0.0 prints as 0)",
+        "assumed for binary64; on the implementation every generated number must come back with the same binary64 bits (spec clause jsonRoundtrip; the sign of zero is not part "
+        "of the value: -0.0 prints as 0)",
         "the UTF-8 layer is modelled (sanitise = utf8::replace_invalid with U+FFFD, strict decoder as the format) and compared byte for byte with Utility::ValidateUTF8; "
         "the JSON text decoder model accepts only the ASCII, whitespace-free language the encoder emits (plus a little more): on other texts it is silent and only the "
         "specification clauses (no crash, DecodeMessage only objects) are evaluated",
+        "connection level: a real JsonRpcConnection is constructed (public constructor), registered the way ApiListener::NewClientHandlerInternal does and Start()ed on the IoEngine; "
+        "the peer is the harness over a real TLS connection; observed: which verif::probe messages reach a handler registered through ApiFunction::Register, and that the "
+        "connection shuts itself down. The ApiListener singleton is a bare object (no certificates, no listener socket); `ep` = an Endpoint object named like the identity exists",
+        "state file: ConfigObject::RestoreObjects is called on files written by the harness (one Host object registered); observed: returned/threw, the Host's check_attempt afterwards; "
+        "a crash of a worker thread ends the forked child = clause no_crash",
         "thorough tier: json/netstring/stream/fifo/stdiostream/utility/jsonrpc .cpp are rebuilt with -fsanitize=address,undefined and the corpus plus the quick generator "
         "run through that harness (synchronous TLS reader only: ASan cannot follow exceptions on Boost coroutine stacks); a sanitizer report = clause no_crash",
         "a stream delivers to each FillFromStream call a chunk or end-of-file (FIFO never reports EOF: then the loop is compared up to the last need-data)",
     ]
     assumptions = [
         "payload lengths below 10^9 (longer ones are rejected by every reader: length field over 9 digits)",
-        "binary64 <-> text round trip of nlohmann/strtod (fuzzed: every generated finite double must come back bit-exactly, modulo the sign of zero)",
+        "binary64 <-> text round trip of nlohmann/strtod (law of the model's number codec; on the implementation: every generated finite double must come back bit-exactly, modulo the sign of zero, else spec failure)",
         "the harness's ChunkStream (one prepared chunk per Read, EOF after the last) stands for an arbitrary Stream; real FIFO and StdioStream are driven as well",
+        "an authenticated peer WITHOUT Endpoint object: the statement names no limit for it (the code applies 1 MiB); the connection specification accepts either reading there",
     ]
 
     _env = None   # environment of harness runs (sanitizer options during the sanitizer pass)
@@ -130,9 +149,9 @@ class C20(Check):
                 if self._fails(harness, driver, ctx + [op], want):
                     return runner.ddmin([], ctx + [op], lambda ls: self._fails(harness, driver, ls, want))
             return [op]
-        if w[0] not in ("T", "B", "M", "K", "D"):
+        if w[0] not in ("T", "B", "M", "K", "D", "S"):
             return [op]
-        idx = 1 if w[0] in ("K", "D") else 3
+        idx = 1 if w[0] in ("K", "D", "S") else 3
         hx = "" if w[idx] == "-" else w[idx]
         if len(hx) > 4000:
             return [op]
@@ -151,14 +170,48 @@ class C20(Check):
         return [mk(by)]
 
     @staticmethod
-    def _classify(case_lines):
-        """Narrow classifier of a minimised crash witness: the operation's JSON text nests >= 4000 containers."""
+    def _null_records(data):
+        """(all, some): the bytes are canonical netstring frames from the start; every / some payload is the JSON text
+        `null` (modulo JSON whitespace).  Parsing stops at the first byte that is not a canonical frame."""
+        import re
+        pos, n_null, n_other = 0, 0, 0
+        while pos < len(data):
+            m = re.match(rb"(0|[1-9][0-9]{0,8}):", data[pos:])
+            if not m:
+                n_other += 1
+                break
+            ln = int(m.group(1))
+            start = pos + m.end()
+            if start + ln >= len(data) or data[start + ln:start + ln + 1] != b",":
+                n_other += 1
+                break
+            if data[start:start + ln].strip(b" \t\r\n") == b"null":
+                n_null += 1
+            else:
+                n_other += 1
+            pos = start + ln + 1
+        return (n_null > 0 and n_other == 0, n_null > 0)
+
+    @staticmethod
+    def _classify(case_lines, minimised=False):
+        """Narrow classifier of a crash witness.  `c20_deep_nesting_stack_overflow`: the operation's JSON text nests
+        >= 4000 containers.  `c20_state_record_null` (F-C20b): a state file (S operation) with a well-framed record
+        `null`; for a minimised witness: consisting of nothing but such records."""
         for l in case_lines:
             op = runner.strip_obs(l)
             if op.startswith("X "):
                 parts = op.split(" ", 2)
                 op = parts[2] if len(parts) == 3 else ""
             w = op.split()
+            if len(w) == 2 and w[0] == "S":
+                try:
+                    data = bytes.fromhex("" if w[1] == "-" else w[1])
+                except ValueError:
+                    continue
+                all_null, some_null = C20._null_records(data)
+                if all_null if minimised else some_null:
+                    return "c20_state_record_null"
+                continue
             if not w or w[0] not in ("K", "D", "M", "T"):
                 continue
             hx = w[1] if w[0] in ("K", "D") else (w[3] if len(w) > 3 else "")
@@ -178,7 +231,7 @@ class C20(Check):
         return ""
 
     def matches_known(self, entry, finding):
-        return False      # C20 has no open known finding (F-C20a is fixed); `_classify` only keeps crash classes apart
+        return False      # C20 has no open known finding (F-C20a, F-C20b are fixed); `_classify` only keeps crash classes apart
 
     def generate(self):
         """Translator: l_JsonMaxNestingDepth of lib/base/json.cpp -> IcingaProofs/Gen/Limits.lean (theorem
@@ -219,6 +272,8 @@ class C20(Check):
                 if tag:
                     detail["sanitizer_report"] = self._san_report()
                     detail["harness"] = harness
+                if kv["clause"] == "no_crash" and cls == "c20_state_record_null" and self._classify(shown, minimised=True) != cls:
+                    cls = "other_crash_in_state_file_with_null_record"
                 what = "spec:C20:" + kv["clause"] + (":" + cls if cls else "") + tag
                 res.spec_failures.append(runner.Finding("spec", what, shown, detail))
         seen = set()
@@ -356,8 +411,11 @@ class C20(Check):
                     "(every error class of utf8cpp, range boundaries, random bytes) and values whose strings/keys are ill-formed UTF-8. Every operation runs in a forked "
                     "child: a crash/abort/hang of the real code becomes `X <signal> <operation>` = clause no_crash, shrunk and replayable. evaluations = reader calls + codec round trips; a case "
                     "counts as non-trivial (distinct by hash of its operation line, counted by the Lean driver) when it produced an item/error/non-EOF outcome, "
-                    "an escape, a container or a fraction")
-        res.samples = [self._line(save, k)[:300] for k in (1, 2, 110100, 170100, 185000, 260000, 264000, 270000, 299000) if self._line(save, k)]
+                    "an escape, a container or a fraction. Added: a real started JsonRpcConnection for all four combinations of authenticated x Endpoint-object-exists — probe messages of "
+                    "every size around 1 MiB (exactly 1048576, one more, 2 MiB; thorough 10 MiB), byte-wise writes, hostile tails, 500 random streams (2500 thorough): observed = the "
+                    "messages that reached the handler; ConfigObject::RestoreObjects on state files whose records are null / scalars / arrays / objects lacking or mistyping "
+                    "type, name, update, next to one applicable record, with framing mutations (1200 random files; 6000 thorough)")
+        res.samples = [self._line(save, k)[:300] for k in (1, 2, 110100, 170100, 185000, 260000, 264000, 270000, 299000, 341500, 342500) if self._line(save, k)]
         self._collect(lines, save, harness, driver, res, "")
         if tier == "thorough":
             self._sanitizer_pass(seed, driver, res)
@@ -365,7 +423,7 @@ class C20(Check):
 
     def replay(self, path, harness, driver):
         data = json.load(open(path))
-        lines = [l for l in data.get("case", []) if l[:2] in ("T ", "F ", "B ", "J ", "K ", "D ", "M ", "X ")]
+        lines = [l for l in data.get("case", []) if l[:2] in ("T ", "F ", "B ", "J ", "K ", "D ", "M ", "C ", "S ", "U ", "X ")]
         f = self.work("replay.ops")
         with open(f, "w") as fh:
             fh.write("\n".join(runner.strip_obs(l) for l in lines) + "\n")
